@@ -789,13 +789,24 @@ class H2Connection:
                 )
 
         self.state_machine.process_input(ConnectionInputs.SEND_HEADERS)
+        opening = stream_id not in self.streams
+        highest_outbound_stream_id = self.highest_outbound_stream_id
         stream = self._get_or_create_stream(
             stream_id, AllowedStreamIDs(self.config.client_side)
         )
-        frames = stream.send_headers(
-            headers, self.encoder, end_stream,
-            priority_present=priority_present
-        )
+        try:
+            frames = stream.send_headers(
+                headers, self.encoder, end_stream,
+                priority_present=priority_present
+            )
+        except Exception:
+            if opening:
+                # The request was refused and nothing was sent: the stream
+                # we prepared for it was never opened and must not stay
+                # behind as an idle stream that the peer's frames could open.
+                del self.streams[stream_id]
+                self.highest_outbound_stream_id = highest_outbound_stream_id
+            raise
 
         # We may need to send priority information.
         if priority_present:
